@@ -7,6 +7,7 @@ mod lexh;
 mod parse;
 mod pathnorm;
 mod pred;
+mod replh;
 mod util;
 
 fn main() {
@@ -20,6 +21,8 @@ fn main() {
         "tsort" => graph::run_tsort(&rest),
         "pathnorm" => pathnorm::run(&rest),
         "pred" => pred::run(&rest),
+        "repl-frame" => replh::run_frame(&rest),
+        "repl-session" => replh::run_session(&rest),
         "check" => checkh::run(&rest),
         "lex" => lexh::run(&rest),
         "parse-expr" => parse::run_expr(&rest),
